@@ -1,13 +1,652 @@
-//! C12: generators and executor (see DESIGN.md section 4, C12).
+//! C12: authenticated encryption is correct, standard-conformant and tamper-evident
+//! (generators, executor and the property's own oracle; see DESIGN.md section 4, C12).
+//!
+//! Case forms (all through the public `aries_askar::kms::LocalKey` API):
+//!   {"kind":"c12","alg":A,"key":hex,"ops":[op…]}   out = [key result, op result…]
+//!   {"kind":"c12:keylens","alg":A,"max":n,"fill":b} out = run-length encoded outcome per key length 0..=max
+//!   {"kind":"c12:selftest"}                          out = the Lean specifications' self tests (all true); the executor
+//!                                                    runs the standards' known-answer tests through LocalKey as oracle
+//! The oracle judges the PROPERTY (round trip, layout, every tampering rejected, same error for all same-length
+//! forgeries, errors instead of panics, standards' vectors) and never looks at the Lean model.
+use crate::canon::{jvalue, value_from_json};
 use crate::rng::Rng;
-use serde_json::{json, Value};
+use aries_askar::crypto::alg::{AesTypes, Chacha20Types};
+use aries_askar::kms::{KeyAlg, LocalKey};
+use aries_askar::{Error, ErrorKind};
+use serde_json::{json, Map, Value};
+use std::collections::BTreeSet;
+use std::panic::{catch_unwind, AssertUnwindSafe};
 
-/// generated cases for this property (each a JSON object with "kind": "c12…")
-pub fn gen(_r: &mut Rng, _thorough: bool, _count: Option<usize>) -> Vec<Value> {
-    vec![]
+pub const ALGS: [&str; 8] = ["a128gcm", "a256gcm", "a128cbchs256", "a256cbchs512", "a128kw", "a256kw", "c20p", "xc20p"];
+
+fn alg_of(s: &str) -> Option<KeyAlg> {
+    Some(match s {
+        "a128gcm" => KeyAlg::Aes(AesTypes::A128Gcm),
+        "a256gcm" => KeyAlg::Aes(AesTypes::A256Gcm),
+        "a128cbchs256" => KeyAlg::Aes(AesTypes::A128CbcHs256),
+        "a256cbchs512" => KeyAlg::Aes(AesTypes::A256CbcHs512),
+        "a128kw" => KeyAlg::Aes(AesTypes::A128Kw),
+        "a256kw" => KeyAlg::Aes(AesTypes::A256Kw),
+        "c20p" => KeyAlg::Chacha20(Chacha20Types::C20P),
+        "xc20p" => KeyAlg::Chacha20(Chacha20Types::XC20P),
+        "ed25519" => KeyAlg::Ed25519,
+        _ => return None,
+    })
 }
 
+fn key_len(alg: &str) -> usize {
+    match alg {
+        "a128gcm" | "a128kw" => 16,
+        "a256cbchs512" => 64,
+        _ => 32,
+    }
+}
+
+fn nonce_len(alg: &str) -> usize {
+    match alg {
+        "a128gcm" | "a256gcm" | "c20p" => 12,
+        "a128cbchs256" | "a256cbchs512" => 16,
+        "xc20p" => 24,
+        _ => 0,
+    }
+}
+
+fn is_kw(alg: &str) -> bool {
+    alg == "a128kw" || alg == "a256kw"
+}
+
+fn kind_name(k: ErrorKind) -> &'static str {
+    match k {
+        ErrorKind::Backend => "Backend",
+        ErrorKind::Busy => "Busy",
+        ErrorKind::Custom => "Custom",
+        ErrorKind::Duplicate => "Duplicate",
+        ErrorKind::Encryption => "Encryption",
+        ErrorKind::Input => "Input",
+        ErrorKind::NotFound => "NotFound",
+        ErrorKind::Unexpected => "Unexpected",
+        ErrorKind::Unsupported => "Unsupported",
+    }
+}
+
+fn jerr2(e: &Error) -> Value {
+    json!({"err": kind_name(e.kind()), "msg": e.message().unwrap_or("")})
+}
+
+fn ecode(e: &Error) -> String {
+    format!("E:{}:{}", kind_name(e.kind()), e.message().unwrap_or(""))
+}
+
+fn hx(v: &Value, k: &str) -> Vec<u8> {
+    hex::decode(v[k].as_str().unwrap_or("")).unwrap_or_default()
+}
+
+fn pattern(fill: usize, n: usize) -> Vec<u8> {
+    (0..n).map(|i| ((fill + 7 * i) % 256) as u8).collect()
+}
+
+fn flip_bit(b: &[u8], i: usize) -> Vec<u8> {
+    let mut v = b.to_vec();
+    v[i / 8] ^= 1u8 << (i % 8);
+    v
+}
+
+fn rle(xs: &[String]) -> Value {
+    let mut out: Vec<Value> = vec![];
+    let mut cur: Option<(String, usize)> = None;
+    for x in xs {
+        match &mut cur {
+            Some((s, n)) if s == x => *n += 1,
+            _ => {
+                if let Some((s, n)) = cur.take() { out.push(json!([s, n])); }
+                cur = Some((x.clone(), 1));
+            }
+        }
+    }
+    if let Some((s, n)) = cur { out.push(json!([s, n])); }
+    Value::Array(out)
+}
+
+struct Ctx {
+    alg: String,
+    oracle: Vec<Value>,
+    feat: Map<String, Value>,
+}
+
+impl Ctx {
+    fn count(&mut self, k: &str) {
+        let n = self.feat.get(k).and_then(|v| v.as_u64()).unwrap_or(0);
+        self.feat.insert(k.to_string(), json!(n + 1));
+    }
+    fn fail(&mut self, sig: String, detail: Value) {
+        if self.oracle.len() < 8 { self.oracle.push(json!({"sig": sig, "detail": detail})); }
+    }
+}
+
+/// a call on the real code; a panic is an outcome of its own (and always an oracle failure)
+fn guarded<T>(cx: &mut Ctx, what: &str, f: impl FnOnce() -> Result<T, Error>) -> Result<Result<T, Error>, ()> {
+    match catch_unwind(AssertUnwindSafe(f)) {
+        Ok(r) => {
+            match &r {
+                Ok(_) => cx.count(&format!("{}:ok", what)),
+                Err(e) => cx.count(&format!("{}:{}", what, ecode(e))),
+            }
+            Ok(r)
+        }
+        Err(p) => {
+            let msg = p.downcast_ref::<String>().cloned().or_else(|| p.downcast_ref::<&str>().map(|s| s.to_string())).unwrap_or_default();
+            let alg = cx.alg.clone();
+            cx.fail(format!("c12:panic:{}:{}", alg, what), json!({"panic": msg}));
+            cx.count("panic");
+            Err(())
+        }
+    }
+}
+
+fn dec_code(cx: &mut Ctx, what: &str, key: &LocalKey, ct: &[u8], tag: &[u8], nonce: &[u8], aad: &[u8], expect: &[u8]) -> String {
+    match guarded(cx, what, || key.aead_decrypt((ct, tag), nonce, aad)) {
+        Ok(Ok(pt)) => if pt.as_ref() == expect { "ok:same".into() } else { "ok:diff".into() },
+        Ok(Err(e)) => ecode(&e),
+        Err(()) => "panic".into(),
+    }
+}
+
+fn dec_json(cx: &mut Ctx, key: &LocalKey, ct: &[u8], tag: &[u8], nonce: &[u8], aad: &[u8]) -> Value {
+    match guarded(cx, "dec", || key.aead_decrypt((ct, tag), nonce, aad)) {
+        Ok(Ok(pt)) => json!({"pt": jvalue(pt.as_ref())}),
+        Ok(Err(e)) => jerr2(&e),
+        Err(()) => json!({"panic": "dec"}),
+    }
+}
+
+fn op_enc(cx: &mut Ctx, key: &LocalKey, msg: &[u8], nonce: &[u8], aad: &[u8]) -> Value {
+    let alg = cx.alg.clone();
+    let nl = nonce_len(&alg);
+    let random = nonce.is_empty() && nl > 0;
+    let enc = match guarded(cx, "enc", || key.aead_encrypt(msg, nonce, aad)) {
+        Ok(Ok(e)) => e,
+        Ok(Err(e)) => return jerr2(&e),
+        Err(()) => return json!({"panic": "enc"}),
+    };
+    // accessors slice the buffer: a panic there is a layout failure
+    let parts = catch_unwind(AssertUnwindSafe(|| (enc.ciphertext().to_vec(), enc.tag().to_vec(), enc.nonce().to_vec())));
+    let (ct, tag, n) = match parts {
+        Ok(p) => p,
+        Err(_) => {
+            cx.fail(format!("c12:layout:{}:accessor panics", alg), json!({}));
+            return json!({"panic": "accessor"});
+        }
+    };
+    let buf: Vec<u8> = enc.as_ref().to_vec();
+    let tag_pos = ct.len();
+    let nonce_pos = ct.len() + tag.len();
+    // ---- oracle: layout ct‖tag‖nonce, lengths, round trip, determinism
+    let mut cat = ct.clone();
+    cat.extend_from_slice(&tag);
+    cat.extend_from_slice(&n);
+    if cat != buf { cx.fail(format!("c12:layout:{}:buffer != ct‖tag‖nonce", alg), json!({"buf": hex::encode(&buf)})); }
+    let params = key.aead_params().ok();
+    if is_kw(&alg) {
+        if ct.len() != msg.len() + 8 || !tag.is_empty() || !n.is_empty() {
+            cx.fail(format!("c12:layout:{}:key-wrap output is not |m|+8 bytes without tag and nonce", alg), json!({"ct": ct.len(), "tag": tag.len()}));
+        }
+    } else if let Some(p) = params {
+        if tag.len() != p.tag_length || n.len() != p.nonce_length || ct.len() != msg.len() + key.aead_padding(msg.len()) {
+            cx.fail(format!("c12:layout:{}:lengths differ from aead_params/aead_padding", alg), json!({"ct": ct.len(), "tag": tag.len(), "nonce": n.len()}));
+        }
+    }
+    if !random && n != nonce { cx.fail(format!("c12:layout:{}:returned nonce differs from the given nonce", alg), json!({})); }
+    match guarded(cx, "dec", || key.aead_decrypt((&ct[..], &tag[..]), &n, aad)) {
+        Ok(Ok(pt)) if pt.as_ref() == msg => {}
+        Ok(Ok(_)) => cx.fail(format!("c12:roundtrip:{}:decrypt(encrypt(m)) != m", alg), json!({"len": msg.len()})),
+        Ok(Err(e)) => cx.fail(format!("c12:roundtrip:{}:decrypt(encrypt(m)) fails", alg), json!({"len": msg.len(), "err": ecode(&e)})),
+        Err(()) => {}
+    }
+    // the same through the combined form (ciphertext‖tag, empty tag) and through &Encrypted
+    match guarded(cx, "dec", || key.aead_decrypt(&cat[..nonce_pos], &n, aad)) {
+        Ok(Ok(pt)) if pt.as_ref() == msg => {}
+        Ok(_) => cx.fail(format!("c12:roundtrip:{}:combined-form decrypt differs", alg), json!({"len": msg.len()})),
+        Err(()) => {}
+    }
+    match guarded(cx, "enc", || key.aead_encrypt(msg, &n, aad)) {
+        Ok(Ok(e2)) if e2.as_ref() == &buf[..] => {}
+        Ok(_) => cx.fail(format!("c12:determinism:{}:same key, nonce, aad, message give different output", alg), json!({})),
+        Err(()) => {}
+    }
+    if random {
+        cx.count("enc:random_nonce");
+        return json!({"random_nonce": true, "buf_len": buf.len(), "tag_pos": tag_pos, "nonce_pos": nonce_pos});
+    }
+    let dec = dec_json(cx, key, &ct, &tag, &n, aad);
+    json!({"ct": jvalue(&ct), "tag": hex::encode(&tag), "nonce": hex::encode(&n), "tag_pos": tag_pos, "nonce_pos": nonce_pos,
+           "buf": jvalue(&buf), "dec": dec})
+}
+
+fn encrypt_parts(cx: &mut Ctx, key: &LocalKey, msg: &[u8], nonce: &[u8], aad: &[u8]) -> Result<(Vec<u8>, Vec<u8>), Value> {
+    match guarded(cx, "enc", || key.aead_encrypt(msg, nonce, aad)) {
+        Ok(Ok(e)) => match catch_unwind(AssertUnwindSafe(|| (e.ciphertext().to_vec(), e.tag().to_vec()))) {
+            Ok(p) => Ok(p),
+            Err(_) => Err(json!({"panic": "accessor"})),
+        },
+        Ok(Err(e)) => Err(jerr2(&e)),
+        Err(()) => Err(json!({"panic": "enc"})),
+    }
+}
+
+fn op_flips(cx: &mut Ctx, key: &LocalKey, msg: &[u8], nonce: &[u8], aad: &[u8]) -> Value {
+    let alg = cx.alg.clone();
+    let (ct, tag) = match encrypt_parts(cx, key, msg, nonce, aad) { Ok(p) => p, Err(v) => return v };
+    let mut whole = ct.clone();
+    whole.extend_from_slice(&tag);
+    let base = dec_code(cx, "dec", key, &ct, &tag, nonce, aad, msg);
+    let mut a = vec![];
+    for i in 0..8 * whole.len() {
+        let w = flip_bit(&whole, i);
+        a.push(dec_code(cx, "dec:flip", key, &w[..ct.len()], &w[ct.len()..], nonce, aad, msg));
+    }
+    let mut b = vec![];
+    for i in 0..8 * nonce.len() { b.push(dec_code(cx, "dec:flip", key, &ct, &tag, &flip_bit(nonce, i), aad, msg)); }
+    let mut c = vec![];
+    for i in 0..8 * aad.len() { c.push(dec_code(cx, "dec:flip", key, &ct, &tag, nonce, &flip_bit(aad, i), msg)); }
+    // ---- oracle: every tampering is rejected, and all same-length forgeries are rejected with the same error
+    for (field, codes) in [("ct‖tag", &a), ("nonce", &b), ("aad", &c)] {
+        if let Some(pos) = codes.iter().position(|x| x.starts_with("ok")) {
+            cx.fail(format!("c12:tamper:{}:single-bit flip of {} accepted", alg, field), json!({"bit": pos, "msg_len": msg.len()}));
+        }
+    }
+    let distinct: BTreeSet<&String> = a.iter().chain(b.iter()).chain(c.iter()).filter(|x| x.starts_with("E:")).collect();
+    if distinct.len() > 1 {
+        let list: Vec<String> = distinct.iter().map(|s| s.to_string()).collect();
+        cx.fail(format!("c12:uniform:{}:same-length forgeries distinguishable:{}", alg, list.join("|")), json!({"msg_len": msg.len(), "errors": list}));
+    }
+    cx.count("flips");
+    json!({"base": base, "ct_tag": rle(&a), "nonce": rle(&b), "aad": rle(&c)})
+}
+
+fn op_resize(cx: &mut Ctx, key: &LocalKey, msg: &[u8], nonce: &[u8], aad: &[u8], ext: &[u8]) -> Value {
+    let alg = cx.alg.clone();
+    let (ct, tag) = match encrypt_parts(cx, key, msg, nonce, aad) { Ok(p) => p, Err(v) => return v };
+    let mut whole = ct.clone();
+    whole.extend_from_slice(&tag);
+    let base = dec_code(cx, "dec", key, &whole, &[], nonce, aad, msg);
+    let mut a = vec![];
+    for n in 0..whole.len() { a.push(dec_code(cx, "dec:trunc", key, &whole[..n], &[], nonce, aad, msg)); }
+    let mut b = vec![];
+    for n in 0..ext.len() {
+        let mut w = whole.clone();
+        w.extend_from_slice(&ext[..n + 1]);
+        b.push(dec_code(cx, "dec:extend", key, &w, &[], nonce, aad, msg));
+    }
+    for (field, codes) in [("truncation", &a), ("extension", &b)] {
+        if let Some(pos) = codes.iter().position(|x| x.starts_with("ok")) {
+            cx.fail(format!("c12:tamper:{}:{} accepted", alg, field), json!({"index": pos, "msg_len": msg.len()}));
+        }
+    }
+    cx.count("resize");
+    json!({"base": base, "trunc": rle(&a), "extend": rle(&b)})
+}
+
+fn op_nonce_lens(cx: &mut Ctx, key: &LocalKey, msg: &[u8], aad: &[u8], max: usize, fill: usize) -> Value {
+    let alg = cx.alg.clone();
+    let nl = nonce_len(&alg);
+    let good = pattern(fill, nl);
+    let valid: Vec<u8> = match encrypt_parts(cx, key, msg, &good, aad) {
+        Ok((ct, tag)) => { let mut w = ct; w.extend_from_slice(&tag); w }
+        Err(_) => pattern(fill, 40),
+    };
+    let supported = alg != "ed25519" && encrypt_parts(cx, key, msg, &good, aad).is_ok();
+    let mut encs = vec![];
+    let mut decs = vec![];
+    for n in 0..=max {
+        let nonce = pattern(fill, n);
+        let e = match guarded(cx, "enc:noncelen", || key.aead_encrypt(msg, &nonce, aad)) {
+            Ok(Ok(e)) => format!("{}:{}", if n == 0 && nl > 0 { "random" } else { "ok" }, e.as_ref().len()),
+            Ok(Err(e)) => ecode(&e),
+            Err(()) => "panic".into(),
+        };
+        let d = dec_code(cx, "dec:noncelen", key, &valid, &[], &nonce, aad, msg);
+        // ---- oracle: a nonce of wrong length is an error (an empty nonce asks for a random one on encryption)
+        if supported {
+            let enc_ok = !e.starts_with("E:");
+            if enc_ok != (n == nl || (n == 0 && nl > 0)) && e != "panic" {
+                cx.fail(format!("c12:noncelen:{}:encrypt verdict wrong for nonce length", alg), json!({"len": n, "got": e}));
+            }
+            if d.starts_with("ok") != (n == nl) && d != "panic" {
+                cx.fail(format!("c12:noncelen:{}:decrypt verdict wrong for nonce length", alg), json!({"len": n, "got": d}));
+            }
+        }
+        encs.push(e);
+        decs.push(d);
+    }
+    cx.count("nonce_lens");
+    json!({"enc": rle(&encs), "dec": rle(&decs)})
+}
+
+fn op_wrap(cx: &mut Ctx, key: &LocalKey, palg: &str, pkey: &[u8], nonce: &[u8]) -> Value {
+    let alg = cx.alg.clone();
+    let pa = match alg_of(palg) { Some(a) => a, None => return json!({"err": "bad palg"}) };
+    let payload = match guarded(cx, "from_secret_bytes", || LocalKey::from_secret_bytes(pa, pkey)) {
+        Ok(Ok(k)) => k,
+        Ok(Err(e)) => return json!({"payload_err": jerr2(&e)}),
+        Err(()) => return json!({"panic": "from_secret_bytes"}),
+    };
+    let enc = match guarded(cx, "wrap", || key.wrap_key(&payload, nonce)) {
+        Ok(Ok(e)) => e,
+        Ok(Err(e)) => return jerr2(&e),
+        Err(()) => return json!({"panic": "wrap"}),
+    };
+    let parts = catch_unwind(AssertUnwindSafe(|| (enc.ciphertext().to_vec(), enc.tag().to_vec(), enc.nonce().to_vec())));
+    let (ct, tag, n) = match parts {
+        Ok(p) => p,
+        Err(_) => {
+            cx.fail(format!("c12:layout:{}:accessor panics", alg), json!({}));
+            return json!({"panic": "accessor"});
+        }
+    };
+    let buf = enc.as_ref().to_vec();
+    let un = match guarded(cx, "unwrap", || key.unwrap_key(pa, (&ct[..], &tag[..]), &n)) {
+        Ok(Ok(k)) => match k.to_secret_bytes() {
+            Ok(sb) => {
+                if sb.as_ref() != pkey { cx.fail(format!("c12:roundtrip:{}:unwrap(wrap(k)) != k", alg), json!({"palg": palg})); }
+                json!({"key": hex::encode(sb.as_ref())})
+            }
+            Err(e) => jerr2(&e),
+        },
+        Ok(Err(e)) => {
+            cx.fail(format!("c12:roundtrip:{}:unwrap(wrap(k)) fails", alg), json!({"palg": palg, "err": ecode(&e)}));
+            jerr2(&e)
+        }
+        Err(()) => json!({"panic": "unwrap"}),
+    };
+    json!({"ct": jvalue(&ct), "tag": hex::encode(&tag), "nonce": hex::encode(&n), "tag_pos": ct.len(), "nonce_pos": ct.len() + tag.len(),
+           "buf": jvalue(&buf), "unwrap": un})
+}
+
+fn run_op(cx: &mut Ctx, key: &LocalKey, op: &Value) -> Value {
+    let name = op["op"].as_str().unwrap_or("");
+    cx.count(&format!("op:{}", name));
+    match name {
+        "params" => match guarded(cx, "params", || key.aead_params()) {
+            Ok(Ok(p)) => json!({"nonce": p.nonce_length, "tag": p.tag_length}),
+            Ok(Err(e)) => jerr2(&e),
+            Err(()) => json!({"panic": "params"}),
+        },
+        "padding" => {
+            let len = op["len"].as_u64().unwrap_or(0) as usize;
+            match catch_unwind(AssertUnwindSafe(|| key.aead_padding(len))) {
+                Ok(p) => json!({"pad": p}),
+                Err(_) => { let a = cx.alg.clone(); cx.fail(format!("c12:panic:{}:padding", a), json!({})); json!({"panic": "padding"}) }
+            }
+        }
+        "enc" => op_enc(cx, key, &value_from_json(&op["msg"]), &hx(op, "nonce"), &value_from_json(&op["aad"])),
+        "dec" => dec_json(cx, key, &value_from_json(&op["ct"]), &hx(op, "tag"), &hx(op, "nonce"), &value_from_json(&op["aad"])),
+        "flips" => op_flips(cx, key, &value_from_json(&op["msg"]), &hx(op, "nonce"), &value_from_json(&op["aad"])),
+        "resize" => op_resize(cx, key, &value_from_json(&op["msg"]), &hx(op, "nonce"), &value_from_json(&op["aad"]), &hx(op, "ext")),
+        "nonce_lens" => op_nonce_lens(cx, key, &value_from_json(&op["msg"]), &value_from_json(&op["aad"]),
+                                      op["max"].as_u64().unwrap_or(0) as usize, op["fill"].as_u64().unwrap_or(0) as usize),
+        "wrap" => op_wrap(cx, key, op["palg"].as_str().unwrap_or(""), &hx(op, "pkey"), &hx(op, "nonce")),
+        "unwrap" => {
+            let a = match alg_of(op["alg"].as_str().unwrap_or("")) { Some(a) => a, None => return json!({"err": "bad alg"}) };
+            let ct = value_from_json(&op["ct"]);
+            let (tag, nonce) = (hx(op, "tag"), hx(op, "nonce"));
+            match guarded(cx, "unwrap", || key.unwrap_key(a, (&ct[..], &tag[..]), &nonce)) {
+                Ok(Ok(k)) => match k.to_secret_bytes() { Ok(sb) => json!({"key": hex::encode(sb.as_ref())}), Err(e) => jerr2(&e) },
+                Ok(Err(e)) => jerr2(&e),
+                Err(()) => json!({"panic": "unwrap"}),
+            }
+        }
+        o => json!({"err": format!("unknown op {}", o)}),
+    }
+}
+
+// ---------------------------------------------------------------------------------------------------------------
+// known-answer tests from the standards, run through LocalKey (oracle of the self-test case)
+
+fn kat(cx: &mut Ctx, name: &str, alg: &str, key: &str, nonce: &str, aad: &[u8], msg: &[u8], ct: &str, tag: &str) {
+    let k = match LocalKey::from_secret_bytes(alg_of(alg).unwrap(), &hex::decode(key).unwrap()) {
+        Ok(k) => k,
+        Err(e) => { cx.fail(format!("c12:kat:{}:key rejected", name), json!({"err": ecode(&e)})); return; }
+    };
+    cx.alg = alg.to_string();
+    match guarded(cx, "enc", || k.aead_encrypt(msg, &hex::decode(nonce).unwrap(), aad)) {
+        Ok(Ok(e)) => {
+            if hex::encode(e.ciphertext()) != ct || hex::encode(e.tag()) != tag {
+                cx.fail(format!("c12:kat:{}:ciphertext or tag differs from the standard's vector", name),
+                        json!({"ct": hex::encode(e.ciphertext()), "tag": hex::encode(e.tag())}));
+            }
+        }
+        Ok(Err(e)) => cx.fail(format!("c12:kat:{}:encryption fails", name), json!({"err": ecode(&e)})),
+        Err(()) => {}
+    }
+    match guarded(cx, "dec", || k.aead_decrypt((&hex::decode(ct).unwrap()[..], &hex::decode(tag).unwrap()[..]), &hex::decode(nonce).unwrap(), aad)) {
+        Ok(Ok(pt)) if pt.as_ref() == msg => {}
+        Ok(_) => cx.fail(format!("c12:kat:{}:the standard's vector does not decrypt", name), json!({})),
+        Err(()) => {}
+    }
+    cx.count("kat");
+}
+
+fn run_kats(cx: &mut Ctx) {
+    let sunscreen = b"Ladies and Gentlemen of the class of '99: If I could offer you only one tip for the future, sunscreen would be it.";
+    let kerckhoffs = b"A cipher system must not be required to be secret, and it must be able to fall into the hands of the enemy without inconvenience";
+    let aad8439 = hex::decode("50515253c0c1c2c3c4c5c6c7").unwrap();
+    let key8439 = "808182838485868788898a8b8c8d8e8f909192939495969798999a9b9c9d9e9f";
+    kat(cx, "rfc8439-2.8.2", "c20p", key8439, "070000004041424344454647", &aad8439, sunscreen,
+        "d31a8d34648e60db7b86afbc53ef7ec2a4aded51296e08fea9e2b5a736ee62d63dbea45e8ca9671282fafb69da92728b1a71de0a9e060b2905d6a5b67ecd3b3692ddbd7f2d778b8c9803aee328091b58fab324e4fad675945585808b4831d7bc3ff4def08e4b7a9de576d26586cec64b6116",
+        "1ae10b594f09e26a7e902ecbd0600691");
+    kat(cx, "xchacha-A.3.1", "xc20p", key8439, "404142434445464748494a4b4c4d4e4f5051525354555657", &aad8439, sunscreen,
+        "bd6d179d3e83d43b9576579493c0e939572a1700252bfaccbed2902c21396cbb731c7f1b0b4aa6440bf3a82f4eda7e39ae64c6708c54c216cb96b72e1213b4522f8c9ba40db5d945b11b69b982c1bb9e3f3fac2bc369488f76b2383565d3fff921f9664c97637da9768812f615c68b13b52e",
+        "c0875924c1c7987947deafd8780acf49");
+    let p4 = hex::decode("d9313225f88406e5a55909c5aff5269a86a7a9531534f7da2e4c303d8a318a721c3c0c95956809532fcf0e2449a6b525b16aedf5aa0de657ba637b39").unwrap();
+    let a4 = hex::decode("feedfacedeadbeeffeedfacedeadbeefabaddad2").unwrap();
+    kat(cx, "gcm-spec-tc4", "a128gcm", "feffe9928665731c6d6a8f9467308308", "cafebabefacedbaddecaf888", &a4, &p4,
+        "42831ec2217774244b7221b784d0d49ce3aa212f2c02a4e035c17e2329aca12e21d514b25466931c7d8f6a5aac84aa051ba30b396a0aac973d58e091",
+        "5bc94fbc3221a5db94fae95ae7121a47");
+    kat(cx, "gcm-spec-tc14", "a256gcm", "0000000000000000000000000000000000000000000000000000000000000000", "000000000000000000000000", &[], &[0u8; 16],
+        "cea7403d4d606b6e074ec5d3baf39d18", "d0d1c8a799996bf0265b98b5d48ab919");
+    kat(cx, "rfc7518-B.1", "a128cbchs256", "000102030405060708090a0b0c0d0e0f101112131415161718191a1b1c1d1e1f", "1af38c2dc2b96ffdd86694092341bc04",
+        b"The second principle of Auguste Kerckhoffs", kerckhoffs,
+        "c80edfa32ddf39d5ef00c0b468834279a2e46a1b8049f792f76bfe54b903a9c9a94ac9b47ad2655c5f10f9aef71427e2fc6f9b3f399a221489f16362c703233609d45ac69864e3321cf82935ac4096c86e133314c54019e8ca7980dfa4b9cf1b384c486f3a54c51078158ee5d79de59fbd34d848b3d69550a67646344427ade54b8851ffb598f7f80074b9473c82e2db",
+        "652c3fa36b0a7c5b3219fab3a30bc1c4");
+    kat(cx, "rfc7518-B.3", "a256cbchs512",
+        "000102030405060708090a0b0c0d0e0f101112131415161718191a1b1c1d1e1f202122232425262728292a2b2c2d2e2f303132333435363738393a3b3c3d3e3f",
+        "1af38c2dc2b96ffdd86694092341bc04", b"The second principle of Auguste Kerckhoffs", kerckhoffs,
+        "4affaaadb78c31c5da4b1b590d10ffbd3dd8d5d302423526912da037ecbcc7bd822c301dd67c373bccb584ad3e9279c2e6d12a1374b77f077553df829410446b36ebd97066296ae6427ea75c2e0846a11a09ccf5370dc80bfecbad28c73f09b3a3b75e662a2594410ae496b2e2e6609e31e6e02cc837f053d21f37ff4f51950bbe2638d09dd7a4930930806d0703b1f6",
+        "4dd3b4c088a7f45c216839645b2012bf2e6269a8c56a816dbc1b267761955bc5");
+    kat(cx, "rfc3394-4.1", "a128kw", "000102030405060708090a0b0c0d0e0f", "", &[], &hex::decode("00112233445566778899aabbccddeeff").unwrap(),
+        "1fa68b0a8112b447aef34bd8fb5a7b829d3e862371d2cfe5", "");
+    kat(cx, "rfc3394-4.6", "a256kw", "000102030405060708090a0b0c0d0e0f101112131415161718191a1b1c1d1e1f", "", &[],
+        &hex::decode("00112233445566778899aabbccddeeff000102030405060708090a0b0c0d0e0f").unwrap(),
+        "28c9f404c4b810f4cbccb35cfb87f8263f5786e2d80ed326cbc7f0e71a99f43bfb988b9b7a02dd21", "");
+}
+
+// ---------------------------------------------------------------------------------------------------------------
+
 /// run one case against the real code; returns {"out": …, "oracle": […], "feat": {…}}
-pub fn exec(_case: &Value, _tag: &str) -> Value {
-    json!({"out": {"err": "not implemented"}})
+pub fn exec(case: &Value, _tag: &str) -> Value {
+    let kind = case["kind"].as_str().unwrap_or("");
+    let alg = case["alg"].as_str().unwrap_or("").to_string();
+    let mut cx = Ctx { alg: alg.clone(), oracle: vec![], feat: Map::new() };
+    let out = match kind {
+        "c12:selftest" => {
+            run_kats(&mut cx);
+            json!({"sha2": true, "hmac": true, "aes": true, "cbc": true, "keywrap": true, "gcm": true, "chacha20": true,
+                   "poly1305": true, "chachapoly": true, "concatkdf": true})
+        }
+        "c12:keylens" => {
+            let a = alg_of(&alg).expect("alg");
+            let max = case["max"].as_u64().unwrap_or(0) as usize;
+            let fill = case["fill"].as_u64().unwrap_or(0) as usize;
+            let mut codes = vec![];
+            for n in 0..=max {
+                let kb = pattern(fill, n);
+                let c = match guarded(&mut cx, "from_secret_bytes", || LocalKey::from_secret_bytes(a, &kb)) {
+                    Ok(Ok(_)) => "ok".to_string(),
+                    Ok(Err(e)) => ecode(&e),
+                    Err(()) => "panic".into(),
+                };
+                // ---- oracle: exactly the algorithm's key length is accepted
+                if (c == "ok") != (n == key_len(&alg)) && c != "panic" {
+                    cx.fail(format!("c12:keylen:{}:wrong verdict for key length", alg), json!({"len": n, "got": c}));
+                }
+                codes.push(c);
+            }
+            rle(&codes)
+        }
+        _ => {
+            let a = alg_of(&alg).expect("alg");
+            let kb = hx(case, "key");
+            let ops = case["ops"].as_array().cloned().unwrap_or_default();
+            match guarded(&mut cx, "from_secret_bytes", || LocalKey::from_secret_bytes(a, &kb)) {
+                Ok(Ok(key)) => {
+                    let mut outs = vec![json!("ok")];
+                    for op in &ops { outs.push(run_op(&mut cx, &key, op)); }
+                    Value::Array(outs)
+                }
+                Ok(Err(e)) => {
+                    let mut outs = vec![jerr2(&e)];
+                    outs.extend(ops.iter().map(|_| Value::Null));
+                    Value::Array(outs)
+                }
+                Err(()) => json!({"panic": "from_secret_bytes"}),
+            }
+        }
+    };
+    json!({"out": out, "oracle": cx.oracle, "feat": cx.feat})
+}
+
+// ---------------------------------------------------------------------------------------------------------------
+// generators
+
+fn hexs(b: &[u8]) -> String { hex::encode(b) }
+
+/// message spec: small messages as hex, large ones as a fill pattern (keeps case lines short)
+fn msg_spec(r: &mut Rng, len: usize) -> Value {
+    if len <= 64 { json!(hexs(&r.bytes(len))) } else { json!({"fill": r.below(256), "salt": 1 + 2 * r.below(64), "len": len}) }
+}
+
+fn pick_bytes(r: &mut Rng, lens: &[usize]) -> Vec<u8> { let n = *r.pick(lens); r.bytes(n) }
+
+fn good_nonce(r: &mut Rng, alg: &str) -> Vec<u8> { r.bytes(nonce_len(alg)) }
+
+fn aad_for(r: &mut Rng, alg: &str) -> Vec<u8> {
+    if is_kw(alg) { return vec![]; }
+    let n = *r.pick(&[0usize, 0, 1, 7, 8, 13, 16, 17, 42, 64]);
+    r.bytes(n)
+}
+
+fn case(id: String, alg: &str, key: &[u8], ops: Vec<Value>) -> Value {
+    json!({"kind": "c12", "id": id, "alg": alg, "key": hexs(key), "ops": ops})
+}
+
+/// generated cases for this property (each a JSON object with "kind": "c12…")
+pub fn gen(r: &mut Rng, thorough: bool, count: Option<usize>) -> Vec<Value> {
+    let mut out = vec![json!({"kind": "c12:selftest", "id": "selftest"})];
+    let scale = if thorough { 12 } else { 1 };
+    // every key length 0..80 for every algorithm
+    for alg in ALGS.iter().chain(["ed25519"].iter()) {
+        out.push(json!({"kind": "c12:keylens", "id": format!("keylens-{}", alg), "alg": alg, "max": 80, "fill": r.below(256)}));
+    }
+    for alg in ALGS {
+        let kl = key_len(alg);
+        // parameters and padding, exhaustive 0..49 + block boundaries further out
+        let key = r.bytes(kl);
+        let mut ops = vec![json!({"op": "params"})];
+        for len in (0..50).chain([63, 64, 65, 255, 256, 257, 4095, 4096, 4097]) { ops.push(json!({"op": "padding", "len": len})); }
+        out.push(case(format!("params-{}", alg), alg, &key, ops));
+
+        // message lengths 0..49 exhaustively (fresh nonce and aad per message)
+        for rep in 0..scale {
+            let key = r.bytes(kl);
+            let mut ops = vec![];
+            for len in 0..50 {
+                let (n, a) = (good_nonce(r, alg), aad_for(r, alg));
+                ops.push(json!({"op": "enc", "msg": msg_spec(r, len), "nonce": hexs(&n), "aad": hexs(&a)}));
+            }
+            out.push(case(format!("lens-{}-{}", alg, rep), alg, &key, ops));
+        }
+        // random lengths up to 4 KiB, block boundaries favoured
+        for rep in 0..(3 * scale) {
+            let key = r.bytes(kl);
+            let mut ops = vec![];
+            for _ in 0..4 {
+                let mut len = match r.below(4) { 0 => 16 * r.below(257), 1 => 16 * r.below(257) + 1, 2 => (16 * (1 + r.below(256))) - 1, _ => r.below(4097) };
+                if is_kw(alg) && r.chance(3, 4) { len = 8 * (len / 8); }
+                let (n, a) = (good_nonce(r, alg), aad_for(r, alg));
+                ops.push(json!({"op": "enc", "msg": msg_spec(r, len), "nonce": hexs(&n), "aad": hexs(&a)}));
+            }
+            // an empty nonce asks for a random one
+            let rl = 8 * r.below(6);
+            ops.push(json!({"op": "enc", "msg": msg_spec(r, rl), "nonce": "", "aad": hexs(&aad_for(r, alg))}));
+            out.push(case(format!("rand-{}-{}", alg, rep), alg, &key, ops));
+        }
+        // every single-bit flip of ct‖tag, nonce, aad for small messages
+        let flip_lens: Vec<usize> = if thorough { (0..50).collect() } else if is_kw(alg) { vec![0, 8, 16, 24, 40] } else { vec![0, 1, 15, 16, 17, 33] };
+        for len in flip_lens {
+            let key = r.bytes(kl);
+            let (n, a) = (good_nonce(r, alg), if is_kw(alg) { vec![] } else { pick_bytes(r, &[0, 1, 5, 16]) });
+            out.push(case(format!("flips-{}-{}", alg, len), alg, &key,
+                          vec![json!({"op": "flips", "msg": hexs(&r.bytes(len)), "nonce": hexs(&n), "aad": hexs(&a)})]));
+        }
+        // truncations and extensions
+        let rs_lens: Vec<usize> = if thorough { (0..50).step_by(3).collect() } else if is_kw(alg) { vec![0, 16, 32] } else { vec![0, 15, 16, 31, 48] };
+        for len in rs_lens {
+            let key = r.bytes(kl);
+            let (n, a) = (good_nonce(r, alg), aad_for(r, alg));
+            out.push(case(format!("resize-{}-{}", alg, len), alg, &key,
+                          vec![json!({"op": "resize", "msg": hexs(&r.bytes(len)), "nonce": hexs(&n), "aad": hexs(&a), "ext": hexs(&r.bytes(33))})]));
+        }
+        // every nonce length 0..40
+        for rep in 0..scale {
+            let key = r.bytes(kl);
+            let len = if is_kw(alg) { 8 * r.below(5) } else { r.below(40) };
+            out.push(case(format!("noncelens-{}-{}", alg, rep), alg, &key,
+                          vec![json!({"op": "nonce_lens", "msg": hexs(&r.bytes(len)), "aad": hexs(&aad_for(r, alg)), "max": 40, "fill": r.below(256)})]));
+        }
+        // key wrapping: every payload algorithm, right and wrong nonces, unwrap as another algorithm
+        for rep in 0..scale {
+            let key = r.bytes(kl);
+            let mut ops = vec![];
+            for palg in ALGS {
+                let pk = r.bytes(key_len(palg));
+                ops.push(json!({"op": "wrap", "palg": palg, "pkey": hexs(&pk), "nonce": hexs(&good_nonce(r, alg))}));
+            }
+            ops.push(json!({"op": "wrap", "palg": "ed25519", "pkey": hexs(&r.bytes(32)), "nonce": hexs(&good_nonce(r, alg))}));
+            ops.push(json!({"op": "wrap", "palg": "a128gcm", "pkey": hexs(&r.bytes(16)), "nonce": hexs(&pick_bytes(r, &[0, 1, 8, 12, 16, 24]))}));
+            ops.push(json!({"op": "wrap", "palg": "a128gcm", "pkey": hexs(&r.bytes(17)), "nonce": hexs(&good_nonce(r, alg))}));
+            out.push(case(format!("wrap-{}-{}", alg, rep), alg, &key, ops));
+        }
+        // malformed stream: arbitrary ciphertext / tag / nonce / aad, wrong algorithms on unwrap
+        for rep in 0..(2 * scale) {
+            let key = r.bytes(kl);
+            let mut ops = vec![];
+            for _ in 0..12 {
+                let ctl = *r.pick(&[0usize, 1, 7, 8, 15, 16, 17, 24, 31, 32, 33, 40, 48, 64, 100]);
+                let tl = *r.pick(&[0usize, 0, 1, 8, 15, 16, 17, 32, 33]);
+                let nl = if r.chance(2, 3) { nonce_len(alg) } else { r.below(33) };
+                ops.push(json!({"op": "dec", "ct": hexs(&r.bytes(ctl)), "tag": hexs(&r.bytes(tl)), "nonce": hexs(&r.bytes(nl)), "aad": hexs(&aad_for(r, alg))}));
+            }
+            for _ in 0..4 {
+                let ctl = *r.pick(&[0usize, 8, 16, 24, 32, 40, 48, 72]);
+                let tl = *r.pick(&[0usize, 16, 32]);
+                ops.push(json!({"op": "unwrap", "alg": *r.pick(&ALGS), "ct": hexs(&r.bytes(ctl)), "tag": hexs(&r.bytes(tl)), "nonce": hexs(&good_nonce(r, alg))}));
+            }
+            out.push(case(format!("malformed-{}-{}", alg, rep), alg, &key, ops));
+        }
+        // a key of the wrong length: nothing else runs
+        let bad = pick_bytes(r, &[0, 1, 15, 17, 24, 31, 33, 48, 63, 65]);
+        if bad.len() != kl { out.push(case(format!("badkey-{}", alg), alg, &bad, vec![json!({"op": "params"})])); }
+    }
+    // a key type without AEAD support
+    let key = r.bytes(32);
+    out.push(case("nonaead".into(), "ed25519", &key, vec![
+        json!({"op": "params"}), json!({"op": "padding", "len": 5}),
+        json!({"op": "enc", "msg": "00", "nonce": "", "aad": ""}),
+        json!({"op": "enc", "msg": "00", "nonce": hexs(&r.bytes(12)), "aad": ""}),
+        json!({"op": "dec", "ct": hexs(&r.bytes(32)), "tag": "", "nonce": hexs(&r.bytes(12)), "aad": ""}),
+        json!({"op": "wrap", "palg": "a128gcm", "pkey": hexs(&r.bytes(16)), "nonce": ""}),
+        json!({"op": "unwrap", "alg": "a128gcm", "ct": hexs(&r.bytes(32)), "tag": "", "nonce": ""}),
+    ]));
+    if let Some(c) = count { out.truncate(c.max(1)); }
+    out
 }
